@@ -211,7 +211,12 @@ func (o *Output) advanceSpaceAware(paragraphDir di.Direction) fixed.Int26_6 {
 			return o.Advance - lastG.XAdvance
 		}
 	}
-	return o.Advance - lastG.endLetterSpacing
+	// the trailing side of the last glyph (in logical order) is its end for a left to right run,
+	// its start (the visual left) for a right to left one
+	if o.Direction.Progression() == di.FromTopLeft {
+		return o.Advance - lastG.endLetterSpacing
+	}
+	return o.Advance - lastG.startLetterSpacing
 }
 
 // RecalculateAll updates the all other fields of the Output
